@@ -1,17 +1,19 @@
 """Copy a confirmed agent mutant into /verif/seeded/<PROP>-<i>/ with meta.json.
-usage: seed_store.py <PROP> <i> <worktree> "<confirm line>" """
+usage: seed_store.py <PROP> <i> <worktree> "<confirm line>" [<name suffix, default i>] [<origin note>]"""
 import json, os, shutil, sys
 prop, i, wt, confirm = sys.argv[1:5]
-dst = '/verif/seeded/%s-%s' % (prop, i)
+suffix = sys.argv[5] if len(sys.argv) > 5 else i
+origin = sys.argv[6] if len(sys.argv) > 6 else 'independent sub-agent given only the property text and a scratch worktree of /repo (HEAD 338493c)'
+dst = '/verif/seeded/%s-%s' % (prop, suffix)
 os.makedirs(dst, exist_ok=True)
 shutil.copy(os.path.join(wt, 'OUT', 'patch%s.diff' % i), os.path.join(dst, 'patch.diff'))
 shutil.copy(os.path.join(wt, 'OUT', 'demo%s.py' % i), os.path.join(dst, 'demo.py'))
 notes = open(os.path.join(wt, 'OUT', 'notes%s.md' % i)).read()
 open(os.path.join(dst, 'notes.md'), 'w').write(notes)
 meta = {
-    'id': '%s-%s' % (prop, i),
+    'id': '%s-%s' % (prop, suffix),
     'breaks_property': prop,
-    'origin': 'independent sub-agent given only the property text and a scratch worktree of /repo (HEAD 338493c)',
+    'origin': origin,
     'needs_to_manifest': notes.strip().split('\n\n')[-1][:1200],
     'confirmed_by_me': {
         'how': 'tools/seed_confirm.sh <worktree> <i>: demo on clean tree, patch applied, demo again, full suite (--benchmark-skip), tree restored',
